@@ -8,7 +8,8 @@
                                      1. RejectMessagesDecorator (ibc MsgUpdateClient / MsgSubmitMisbehaviour at depth ≥ 1)
                                      2. fee deduction / signature verification (a message without signer annotation
                                         leaves the transaction without a fee payer)
-                                     3. x/lightclient IBCMessagesDecorator.AnteHandle: `for _, m := range msgs`, the
+                                     3. x/lightclient IBCMessagesDecorator.AnteHandle: first `checkedMsgsTravelWithIBCOnly`
+                                        (a checked message travels with ibc core messages only), then `for _, m := range msgs`, the
                                         hub-side checks of MsgUpdateClient / MsgSubmitMisbehaviour / MsgChannelOpenAck
                                         against the state BEFORE the transaction (plus the ante writes of the
                                         messages before it: SaveSigner, Rollapp.ChannelId)
@@ -48,6 +49,31 @@ def signerRefusal (s : St) : Op → Option LErr
       | .viaWrapped => some .noSigner
       | _ => none)
   | _ => none
+
+/-- the message types `IBCMessagesDecorator` checks: ibc `MsgUpdateClient` (header or evidence), `MsgSubmitMisbehaviour`,
+    `MsgChannelOpenAck`, as messages of the transaction -/
+def isChecked : Op → Bool
+  | .updateClient _ .top _ _ => true
+  | .misbehaviour _ .submit _ => true
+  | .misbehaviour _ .viaUpdate _ => true
+  | .chanAck _ .ack _ => true
+  | _ => false
+
+/-- ibc core messages (type URL `/ibc.core.…`): client, connection and channel messages.  Everything else — rollapp /
+    sequencer / lightclient messages, authz.MsgExec whatever it wraps — is not. -/
+def isIbcCore : Op → Bool
+  | .createClient _ _ _ _ => true
+  | .updateClient _ .top _ _ => true
+  | .misbehaviour _ .submit _ => true
+  | .misbehaviour _ .viaUpdate _ => true
+  | .chanInit _ => true
+  | .chanAck _ .ack _ => true
+  | .chanAck _ .confirm _ => true
+  | _ => false
+
+/-- `checkedMsgsTravelWithIBCOnly` (first thing `IBCMessagesDecorator.AnteHandle` does): a transaction that carries a
+    checked message must consist of ibc core messages only -/
+def mixedRefusal (ms : List Op) : Bool := ms.any isChecked && !ms.all isIbcCore
 
 /-- decorator 3, `IBCMessagesDecorator.AnteHandle`, for one message: the hub-side check and its writes -/
 def anteMsg (s : St) : Op → St × Option LErr
@@ -132,6 +158,7 @@ def txStep (s : St) (ms : List Op) : St × Res :=
     match ms.findSome? (signerRefusal s) with
     | some e => (s, .ante e)
     | none =>
+      if mixedRefusal ms then (s, .ante .mixedTx) else
       match anteAll s ms with
       | (_, some e) => (s, .ante e)
       | (s1, none) =>
